@@ -392,6 +392,34 @@ def extras(run, seed, idx, flip, bits, n, mods):
             and np.array_equal(o2, og)):
         run.violation("Ctransform:out-argument", "xyz2gv/xyz2geometry/sf2gv(out=) differ from the returned arrays",
                       dict(desc, pars=p))
+    # out= buffers the way callers may hold them: the transposed view of a (3,n) array (the layout the Python route
+    # returns), three columns of a wider table, float32.  The wrapper may refuse them; a silent copy that leaves the
+    # caller's array unfilled is not allowed.
+    ref_g = ct.xyz2gv(out3, om, *t)
+    ref_x = ct.sf2xyz(sc, fc)
+    for variant in ("transposed", "columns", "float32"):
+        def mk(ncol):
+            if variant == "transposed":
+                return np.full((ncol, n), np.nan).T
+            if variant == "columns":
+                return np.full((n, ncol + 3), np.nan)[:, 1:1 + ncol]
+            return np.full((n, ncol), np.nan, np.float32)
+        for what, call, want in (("xyz2gv", lambda o_: ct.xyz2gv(out3, om, *t, out=o_), ref_g),
+                                 ("sf2gv", lambda o_: ct.sf2gv(sc, fc, om, *t, out=o_), ref_g),
+                                 ("sf2xyz", lambda o_: ct.sf2xyz(sc, fc, out=o_), ref_x),
+                                 ("xyz2geometry", lambda o_: ct.xyz2geometry(out3, om, *t, out=o_), None)):
+            buf = mk(6 if what == "xyz2geometry" else 3)
+            try:
+                call(buf)
+            except Exception:
+                run.count("out_buffer_variants_refused")
+                continue
+            run.count("out_buffer_variants_accepted")
+            want_ = ct.xyz2geometry(out3, om, *t) if want is None else want
+            tolv = 0 if variant != "float32" else 1e-6 * max(1.0, float(np.abs(want_).max()))
+            if not (np.abs(np.asarray(buf, float) - want_) <= tolv).all():
+                run.violation("Ctransform:out-argument:" + variant, "%s(out=<%s array>) was accepted but the caller's array does "
+                              "not hold the result" % (what, variant), dict(desc, pars=p))
     p2 = gen_pars(rng(seed, "C01", "x2", idx), (flip + 3) % 8, bits ^ 0x2b5)
     for k in ct.pnames:
         ct.pars[k] = p2[k]
